@@ -51,6 +51,7 @@ class Check:
         self.viol = {}      # key -> info (unknown)
         self.known_hit = {}  # entry index -> count
         self.known = load_known(pid)
+        self.known_examples = {}
         self.nviol = 0
         self.notes = []
         self.strata = {}
@@ -89,6 +90,9 @@ class Check:
         i = self._match_known(key)
         if i is not None:
             self.known_hit[i] = self.known_hit.get(i, 0) + 1
+            ex = self.known_examples.setdefault(i, [])
+            if len(ex) < 40:
+                ex.append((key, what, files or {}, cmd))
             return False
         self.nviol += 1
         if key in self.viol:
@@ -130,6 +134,19 @@ class Check:
             cov['notes'] = self.notes
         cov['srchash'] = build.srchash()
         cov['repo'] = build.repo()
+        # A known finding covers the cases that were there when it was recorded (per tier, bin/recount), not whatever else starts to
+        # fall into the same family later: more cases than recorded is a new violation.  (Only when no --only restriction narrows the run.)
+        for i, n in sorted(self.known_hit.items()):
+            e = self.known[i]
+            rec = (e.get('cases') or {}).get(self.tier)
+            if rec is not None and n > rec and self.only is None:
+                k0 = e.get('key') or e.get('key_re')
+                exs = self.known_examples.get(i, [])
+                ex = exs[-1] if exs else (k0, '', {}, None)
+                self.nviol += n - rec
+                self.viol['%s/more-cases-than-recorded' % k0] = {
+                    'count': n - rec, 'files': ex[2], 'cmd': ex[3], 'detail': '\n'.join('%s: %s' % (x[0], x[1]) for x in exs[-10:]),
+                    'what': 'the known finding %r covers %d cases in the %s tier (known_findings.jsonl), this run has %d; one of the cases: %s' % (k0, rec, self.tier, n, ex[1][:300])}
         for i, n in sorted(self.known_hit.items()):
             e = self.known[i]
             print('KNOWN-FINDING: property=%s %s (%d cases; key=%s)' % (self.pid, e.get('what', ''), n, e.get('key') or e.get('key_re')))
